@@ -68,4 +68,21 @@ PROPS = {
         "assumptions": ["an unknowing process is a process whose registries lack the type keys (hook) or that sees other names (renaming); both must agree"],
         "parts": [rapid("passthrough", "TestProp", 6000, 120000)],
     },
+    "C08": {
+        "pkg": "c08",
+        "level": "exploration",
+        "level_text": "Generated search with shrinking against an independent reference model: for every generated tree e and ~40 references (every "
+                      "visible layer of e, 17 sentinels, an independent tree, three near-equal perturbed copies of sub-trees of e) Is must not panic and "
+                      "must agree with a Spec-level model of the documented equivalence (identity, own Is method, equal message + full (type, extension) "
+                      "chain, explicit marks); reflexivity, monotonicity under a drawn wrapper, IsAny = disjunction and nil handling are checked on the same case.",
+        "level_note": "The model is written from the README / Is docstring over the generator's Spec (not over library objects); it is itself cross-checked "
+                      "by C02, C13 and C14 which do not use it. Type identity in the model is the %T name plus extension.",
+        "technique": "property-based testing (rapid): independent reference model of mark equivalence, systematic near-equal perturbations, metamorphic monotonicity",
+        "rule": "rapid-generated trees biased towards leaf-or-wrapper types (UOpt, net.DNSError), non-comparable values, comparable wrappers around them and "
+                "Mark nodes; references = layers of e, sentinel pool, independent tree, 3 perturbed copies (one message / type / domain / extra or missing layer / "
+                "cause added or removed). Non-trivial = some perturbed (near-equal) reference does not match, or a non-comparable value is involved. "
+                "Distinct = hash of the case JSON.",
+        "assumptions": ["%T type name + extension identifies a type mark for locally built errors"],
+        "parts": [rapid("is-model", "TestProp", 12000, 240000)],
+    },
 }
